@@ -10,7 +10,8 @@ namespace MpfVerif.C01
 open MpfVerif.EventBus
 
 /-- Registration keeps every handler list sorted by priority, descending: after ANY history of `add_handler`,
-`remove_handler_by_key` and `remove_all_handlers_for_event`, for every event. -/
+`remove_handler_by_key`, `remove_all_handlers_for_event`, `replace_handler`, `remove_handler(method)` and
+`remove_handler_by_event`, for every event. -/
 theorem reg_sorted (ops : List RegOp) (ev : Nat) :
     (regGet (ops.foldl applyOp []) ev).Pairwise (fun a b => a.prio ≥ b.prio) := by
   have key : ∀ (r : Reg), RegSorted r → RegSorted (ops.foldl applyOp r) := by
@@ -25,6 +26,30 @@ theorem reg_stable (r : Reg) (ev : Nat) (h : Handler) (hs : RegSorted r) :
     regGet (addHandler r ev h) ev = insAfter h (regGet r ev) := by
   simp only [addHandler, regGet_regSet, if_true]
   exact sortDesc_append_one h _ (hs ev)
+
+/-- `replace_handler` = drop the matching entries of that event (same callback; with kwargs also equal kwargs), then
+place the new entry like `add_handler` does: behind every remaining entry of the same or a higher priority.  No other
+entry of the event moves, and no other event changes. -/
+theorem replace_lands (r : Reg) (ev : Nat) (h : Handler) (hs : RegSorted r) :
+    regGet (replaceHandler r ev h) ev = insAfter h ((regGet r ev).filter (fun x => !replaceMatches h x)) ∧
+    ∀ ev', ev' ≠ ev → regGet (replaceHandler r ev h) ev' = regGet r ev' := by
+  constructor
+  · simp only [replaceHandler, regGet_regSet, if_true]
+    exact sortDesc_append_one h _ (List.Pairwise.sublist List.filter_sublist (hs ev))
+  · intro ev' hne
+    simp only [replaceHandler, regGet_regSet]
+    rw [if_neg (fun hh => hne hh.symm)]
+
+/-- `remove_handler(method)` removes exactly the entries of that callback under every event, `remove_handler_by_event`
+exactly those under the one event; everything else keeps its place. -/
+theorem remove_by_callback (r : Reg) (pid ev : Nat) :
+    regGet (removeFn r pid) ev = (regGet r ev).filter (fun x => x.pid != pid) ∧
+    regGet (removeEvFn r ev pid) ev = (regGet r ev).filter (fun x => x.pid != pid) ∧
+    ∀ ev', ev' ≠ ev → regGet (removeEvFn r ev pid) ev' = regGet r ev' := by
+  refine ⟨regGet_removeFn r pid ev, by simp [removeEvFn, regGet_regSet], ?_⟩
+  intro ev' hne
+  simp only [removeEvFn, regGet_regSet]
+  rw [if_neg (fun hh => hne hh.symm)]
 
 /-- One iteration of `process_event_queue` (stack of deques) simulates the single depth-first agenda: under the
 loop-head invariant the iteration either is the swap-in of `event_queue` (agenda unchanged) or performs exactly the
@@ -115,6 +140,29 @@ theorem dispatch_set (progs : Nat → Prog) (c : Core) (e : Posted) (hty : e.ty 
   rw [hty, hcb]
   exact (runHandlers_plain_log progs e.ev e.sn (regGet c.reg e.ev) c e.kw .none).1
 
+/-- The same for boolean events (calls stop behind the first `False`) and relay events (each handler sees the fold so
+far): the calls of one dispatch are a function of the snapshot taken when the dispatch begins and of the handlers'
+return values only.  In particular — this is what the code does — a handler that `replace_handler`s / removes itself,
+an already served peer or a peer still waiting, or adds one, changes nothing about the current dispatch: a peer removed
+before its turn is still called from the snapshot, a peer added meanwhile is not, and nobody is skipped or called twice. -/
+theorem dispatch_set_boolean (progs : Nat → Prog) (c : Core) (e : Posted) (hty : e.ty = .boolean) :
+    (processEvent progs c e).1.log.filter (fun o => match o with | .call .. => true | .cb .. => false) =
+      (c.log ++ boolCalls progs e.ev e.sn e.kw (regGet c.reg e.ev)).filter
+        (fun o => match o with | .call .. => true | .cb .. => false) := by
+  unfold processEvent
+  rw [hty]
+  have h := (runHandlers_boolean progs e.ev e.sn (regGet c.reg e.ev) c e.kw .none).1
+  cases e.cb <;> simp only [h]
+
+theorem dispatch_set_relay (progs : Nat → Prog) (c : Core) (e : Posted) (hty : e.ty = .relay) :
+    (processEvent progs c e).1.log.filter (fun o => match o with | .call .. => true | .cb .. => false) =
+      (c.log ++ relayCalls progs e.ev e.sn (regGet c.reg e.ev) e.kw).filter
+        (fun o => match o with | .call .. => true | .cb .. => false) := by
+  unfold processEvent
+  rw [hty]
+  have h := (runHandlers_relay progs e.ev e.sn (regGet c.reg e.ev) c e.kw .none).1
+  cases e.cb <;> simp only [h]
+
 /-- merged kwargs = posted ⊕ registered, the handler's value wins -/
 theorem merge_handler_wins (posted hkw : Kw) (k : Nat) (hu : (hkw.map Prod.fst).Nodup) :
     kwGet (kwUpdate posted hkw) k = match kwGet hkw k with | some v => some v | none => kwGet posted k :=
@@ -141,5 +189,17 @@ def exBus : Bus :=
 example : ((Bus.drain exProgs 100 exBus).map (fun b => b.s.log.map showObs)) =
     some ["c11.1.1:1", "c12.1.1:7", "c13.2.-", "c16.4.1:1", "c15.3.-", "c17.5.-", "b7.1.-", "b8.3.-", "c17.5.-",
       "b7.4.1:1", "b9.2.-", "b9.0.1:1"] := by decide
+
+/-- the `replace_handler` idiom during the handler's own dispatch (self, an already served peer, a waiting peer; and
+`remove_handler(method)` of a waiting peer): nobody is skipped in the running dispatch; the next post sees the new order -/
+def exProgs2 : Nat → Prog
+  | 1 => ⟨[.replace 1 ⟨21, 30, [], none, 1⟩], .none⟩
+  | 2 => ⟨[.replace 1 ⟨22, 5, [], none, 3⟩, .removeFn 4], .none⟩
+  | _ => ⟨[], .none⟩
+
+example : ((Bus.drain exProgs2 100 (Bus.top { s := {} } [.add 1 ⟨11, 30, [], none, 1⟩, .add 1 ⟨12, 20, [], none, 2⟩,
+      .add 1 ⟨13, 10, [], none, 3⟩, .add 1 ⟨14, 10, [(1, .int 1)], none, 4⟩, .post 1 .plain none [], .post 1 .boolean none []])).map
+      (fun b => (b.s.log.map showObs, (regGet b.s.reg 1).map (·.key)))) =
+    some (["c11.1.-", "c12.1.-", "c13.1.-", "c14.1.1:1", "c21.1.-", "c12.1.-", "c22.1.-"], [21, 12, 22]) := by decide
 
 end MpfVerif.C01
